@@ -2116,7 +2116,7 @@ def account_families(stats, tr):
         if lastb[i] and (op in ("align", "alretain") or (op == "json" and len(w) > 1 and w[1] != "0") or
                          (op == "aliter" and len(w) > 2 and w[2] == "-1")):
             oc = "reused" if "ru=1" in ret else ("made" if not ret.startswith("null") else
-                                                 ("refused-after-aligner-was-made" if st_field(mine, "a") == "1" else "null"))
+                                                 ("null-with-aligner-present" if st_field(mine, "a") == "1" else "null"))
             d = mat.setdefault(lastb[i], {})
             d[oc] = d.get(oc, 0) + 1
         if op == "reinitfeat" and ret.startswith("ok"):
